@@ -13,6 +13,7 @@ from qvc import values as V
 import props.C03 as C03
 
 HO = "quantarhei/qm/oscillators/ho.py::"
+MO = "quantarhei/builders/modes.py::"
 AB = C03.AB
 AS = C03.AS
 
@@ -25,7 +26,9 @@ META = dict(
           "[n1, n2] of the upper-left 20x20 block of shift_operator(shift1 - shift2); AggregateBase.coupling between vibronic "
           "states is the electronic coupling times that overlap exactly when one excitation moves (2-4 two-level molecules, "
           "all pairs of states up to two excitations); the oscillator basis in which the shift operator is exponentiated "
-          "has the design size 100, five times the table cut from it."),
+          "has the design size 100, five times the table cut from it. Mode.set_HR is proved to store a non-negative shift "
+          "whose square is twice the Huang-Rhys factor on the addressed electronic state only, Mode.get_HR to return "
+          "shift^2/2, and the composition of the two (real code) to return the factor that was set."),
     note=("the Poisson distribution of the overlaps and orthogonality up to truncation are properties of exp of a truncated "
           "matrix computed through numpy.linalg.eig and are not decided; the number of vibronic states per electronic state "
           "(state generators) and the dipole elements between vibronic states are not under contract."),
@@ -105,6 +108,50 @@ def contracts(reg):
                      ensures=[("shift-operator-exponentiated-in-the-design-basis-of-100-levels-for-a-20-level-table", "self.ops.N >= 100"),
                               ("empty-table-storage", "len(self.FC._shifts) == 0 and len(self.FC._fcs) == 0")]))
 
+    # ---- shift of the potential-energy surface from the Huang-Rhys factor -----------------------------------------------------------------
+    def setup_mode(S):
+        nst = 3
+        subs = [S.obj("SubMode(stub)", label="sub%d" % k, shift=S.real("shift%d" % k), nmax=S.int("nmax%d" % k),
+                      omega=S.real("omega%d" % k)) for k in range(nst)]
+        me = S.obj(MO + "Mode", label="self", submodes=subs, nel=nst)
+        n = S.ex.decide(nst)
+        d = dict(self=me, N=n, hr=S.real("hr"), sub=subs[n])
+        for k in range(nst):
+            d["sub%d" % k] = subs[k]
+        S.ex.mode_case = n
+        return d
+    OTHERS = " and ".join("(N == %d or self.submodes[%d].shift == old(self.submodes[%d].shift))" % (k, k, k) for k in range(3))
+    reg.add(Contract(MO + "Mode.set_HR", setup=setup_mode, requires=["hr >= 0", "0 <= N and N < 3"],
+                     ensures=[("shift-squared-over-two-is-the-factor",
+                               "self.submodes[N].shift*self.submodes[N].shift == 2.0*hr and self.submodes[N].shift >= 0"),
+                              ("other-electronic-states-keep-their-shift", OTHERS)],
+                     frame=dict(roots=["self"], allow=["self.submodes[%d].shift" % k for k in range(3)]), inline=True))
+    reg.add(Contract(MO + "Mode.get_HR", setup=setup_mode, requires=["0 <= N and N < 3"],
+                     ensures=[("factor-is-shift-squared-over-two", "2.0*result == self.submodes[N].shift*self.submodes[N].shift")],
+                     frame=dict(roots=["self"], allow=[]), inline=True))
+
+
+def lemma_hr_roundtrip(ctx):
+    """set_HR then get_HR on the same electronic state returns the factor that was set (composition of the real code)"""
+    from qvc.spec import clause_lemma
+
+    def setup(S):
+        subs = [S.obj("SubMode(stub)", label="sub%d" % k, shift=S.real("shift%d" % k), nmax=S.int("nmax%d" % k),
+                      omega=S.real("omega%d" % k)) for k in range(3)]
+        me = S.obj(MO + "Mode", label="self", submodes=subs, nel=3)
+        n = S.ex.decide(3)
+        hr = S.real("hr")
+        repo = S.ex.repo
+        S.ex.call_function(repo.function(MO + "Mode.set_HR"), [n, hr], {}, bound=me)
+        got = S.ex.call_function(repo.function(MO + "Mode.get_HR"), [n], {}, bound=me)
+        m = (n + 1) % 3
+        other = S.ex.call_function(repo.function(MO + "Mode.get_HR"), [m], {}, bound=me)
+        return dict(hr=hr, got=got, other=other, other_shift=subs[m].fields["shift"], shift_m=S.leaves["shift%d" % m])
+    return clause_lemma(ctx, "huang-rhys-factor-set-then-read", setup, ["hr >= 0"],
+                        [("same-state-returns-the-factor-set", "got == hr"),
+                         ("other-states-keep-their-factor", "2.0*other == shift_m*shift_m")],
+                        where="props/C10.py: Mode.set_HR, Mode.get_HR composed (real code)")
+
 
 def plan(ctx):
     p = Plan("C10")
@@ -114,7 +161,9 @@ def plan(ctx):
                    + [HO + "fcstorage.index#%d-stored" % n for n in (1, 2, 3)]
                    + [AB + "AggregateBase.fc_factor#%d-modes-%d-tables-stored" % (m, n) for m in (1, 2) for n in (0, 1)]
                    + [AB + "AggregateBase._init_me"]
-                   + [AB + "AggregateBase.coupling#vibronic-%d-molecules" % n for n in (2, 3, 4)])
+                   + [AB + "AggregateBase.coupling#vibronic-%d-molecules" % n for n in (2, 3, 4)]
+                   + [MO + "Mode.set_HR", MO + "Mode.get_HR"])
+    p.lemmas = list(getattr(p, "lemmas", [])) + [lemma_hr_roundtrip]
     x = z3.Real("x")
     sq = lambda t: V.ufun("sqrt", t)        # noqa: E731
     p.extra_axioms = [z3.ForAll([x], z3.Implies(x >= 0, sq(x) * sq(x) == x), patterns=[sq(x)]),
